@@ -29,7 +29,9 @@ BODIES = ['True', '"True"', 'true', 'TRUE', 'True\n', ' True', 'False', '',
           '\xff\xfeTrue',
           # a UTF-8 byte-order mark in front of True is not True (judged
           # only when the reply declares its charset)
-          '\xef\xbb\xbfTrue']
+          '\xef\xbb\xbfTrue',
+          # invalid UTF-8 that would read True if the bad bytes were dropped
+          'Tr\xffue', 'True\xc3', '\x80"True"']
 AMBIGUOUS = ('"True', 'True"', '""True""')
 STATUSES = [200, 200, 200, 201, 204, 302, 400, 401, 403, 404, 500, 503]
 HEADERS = [{}, {'Content-Type': 'text/plain; charset=utf-8'},
@@ -144,6 +146,9 @@ def gen_decision(rng):
         target['auth_token'] = 'tok-123'
         if isinstance(target['nested'], dict):
             target['nested']['admin_password'] = 'pw'
+    if rng.random() < 0.3:
+        target['security_groups'] = {'__tuple__': rng.choice(
+            ([], ['sg-1', 'sg-2'], [1, [2, 3]]))}
     if rng.random() < 0.5:
         target['obj'] = {'__opaque__': 1}
     if rng.random() < 0.2:
@@ -357,6 +362,8 @@ def _materialise(target):
         if isinstance(v, dict) and '__opaque__' in v:
             out[k] = object()
             opaque[k] = out[k]
+        elif isinstance(v, dict) and '__tuple__' in v:
+            out[k] = tuple(copy.deepcopy(v['__tuple__']))
         else:
             out[k] = copy.deepcopy(v)
     return out, opaque
